@@ -867,11 +867,12 @@ func (x *Exec) compileCall(env *Env, e *SCall) Value {
 		return TV{t, tString}
 	case "mkstruct":
 		// mkstruct(T, v1, v2, …): the struct value T{v1, v2, …}
-		id, ok := e.Args[0].(*SIdent)
-		if !ok {
+		tn := specTypeName(e.Args[0])
+		if tn == "" {
 			env.fail("mkstruct needs a type name first")
 		}
-		ty := env.resolveType(id.Name)
+		id := &SIdent{tn}
+		ty := env.resolveType(tn)
 		stt, ok := ty.Underlying().(*types.Struct)
 		if !ok || stt.NumFields() != len(e.Args)-1 {
 			env.fail("mkstruct(%s, …): need one value per field", id.Name)
@@ -882,7 +883,9 @@ func (x *Exec) compileCall(env *Env, e *SCall) Value {
 		for i := 0; i < stt.NumFields(); i++ {
 			a := argTV(i + 1)
 			if a.T.Sort != dt.sorts[i] {
-				if v, ok := a.T.IntVal(); ok && dt.sorts[i] == SF64 {
+				if a.T.Op == "opq-nil" {
+					a.T = x.ti.ZeroTerm(stt.Field(i).Type())
+				} else if v, ok := a.T.IntVal(); ok && dt.sorts[i] == SF64 {
 					f, _ := new(big.Float).SetInt(v).Float64()
 					a.T = fpLit(f)
 				} else {
@@ -1137,4 +1140,23 @@ func (x *Exec) qualifiedGlobal(env *Env, pkgName, name string) (Value, bool) {
 		}
 	}
 	return nil, false
+}
+
+// specTypeName renders a spec expression used as a type: T, pkg.T, *T, *pkg.T.
+func specTypeName(t SExpr) string {
+	switch t := t.(type) {
+	case *SIdent:
+		return t.Name
+	case *SField:
+		if id, ok := t.X.(*SIdent); ok {
+			return id.Name + "." + t.Name
+		}
+	case *SUnary:
+		if t.Op == "*" {
+			if n := specTypeName(t.X); n != "" {
+				return "*" + n
+			}
+		}
+	}
+	return ""
 }
